@@ -185,6 +185,13 @@ def jobs(tier, seed):
                 if kind == 'DRR':
                     cfg['smax'] = 3200
                 js.append({'harness': 'rr', 'cfg': cfg, 'weight': 10 if kind != 'DRR' else 60})
+    # declaration order is not the ascending order of the ids
+    for kind, t in (('RR', {2: 1, 0: 1, 1: 1}), ('RR', {1: 1, 0: 1}), ('WRR', {1: 2, 0: 1}), ('DRR', {1: 1, 0: 2})):
+        cfg = {'kind': kind, 'rate': 8192, 'table': t, 'table_order': list(t.keys()), 'sorts': 'int',
+               'flows': [0, 1, 2, 0][:4] if len(t) == 3 else [0, 1, 0, 1], 'burst': [0, 1, 1, 1]}
+        if kind == 'DRR':
+            cfg['smax'] = 3200
+        js.append({'harness': 'rr', 'cfg': cfg, 'weight': 30})
     # three classes
     for kind, t in (('RR', {0: 1, 1: 1, 2: 1}), ('WRR', {0: 2, 1: 1, 2: 1}), ('DRR', {0: 1, 1: 2, 2: 1})):
         cfg = {'kind': kind, 'rate': 8192, 'table': t, 'flows': [2, 0, 1, 2, 0], 'sorts': 'int', 'burst': [0, 1, 1, 1, 1]}
